@@ -526,6 +526,9 @@ pub fn c05_grid(tier: Tier) -> (u64, u64, Vec<(Value, Violation)>, String) {
                             o.vis = d;
                             o.hid = h;
                             one(&o, q);
+                            o.tif = if (d + h + q) % 2 == 0 { Tif::Fok } else { Tif::Ioc };
+                            o.buy = false;
+                            one(&o, q);
                         }
                     }
                 }
@@ -566,6 +569,16 @@ pub fn c05_grid(tier: Tier) -> (u64, u64, Vec<(Value, Violation)>, String) {
             _ => {
                 for d in 0..=dmax {
                     for q in 0..=qmax {
+                        // every time-in-force: it is an identity field and must not influence
+                        // how a resting order is matched
+                        for tif in [Tif::Ioc, Tif::Fok, Tif::Day, Tif::Gtd(5)] {
+                            let mut o = base;
+                            o.kind = kind;
+                            o.vis = d;
+                            o.tif = tif;
+                            o.buy = d % 2 == 0;
+                            one(&o, q);
+                        }
                         let mut o = base;
                         o.kind = kind;
                         o.vis = d;
